@@ -156,9 +156,10 @@ func BindAny(source, target am.Api) (string, error) {
 	fn := func(e *am.Event) {
 		tx := e.Transition()
 
-		// set if not set
+		// set if not set (the same states active, none of the other ones)
 		states := tx.TargetStates()
-		if target.Is(states) {
+		others := am.StatesDiff(source.StateNames(), states)
+		if target.Is(states) && target.Not(others) {
 			return
 		}
 		target.Set(states, e.Args)
